@@ -452,6 +452,204 @@ fn lin(args: &[String], out: &mut dyn Write) {
     }
 }
 
+// ---------------------------------------------------------------- C18: systematic interleavings through a gated Hash impl
+// DashMap calls the user's Hash on every operation: a state / key type whose `hash` pauses thread A at its n-th hashing,
+// lets thread B run one whole operation, then resumes A, gives a deterministic enumeration of (operation pair, pause point).
+// If B cannot finish because A holds the shard lock, A resumes after a short time-out (that point was atomic).
+use std::cell::Cell;
+use std::hash::{Hash, Hasher};
+use std::sync::atomic::AtomicU8;
+static GATE: AtomicU8 = AtomicU8::new(0); // 0 idle, 1 A paused, 2 B done
+thread_local! { static PAUSE_AT: Cell<usize> = const { Cell::new(0) }; static HCOUNT: Cell<usize> = const { Cell::new(0) }; }
+fn hash_hook() {
+    let at = PAUSE_AT.with(|p| p.get());
+    if at == 0 {
+        return;
+    }
+    let c = HCOUNT.with(|c| {
+        c.set(c.get() + 1);
+        c.get()
+    });
+    if c == at {
+        GATE.store(1, SeqCst);
+        let t0 = std::time::Instant::now();
+        while GATE.load(SeqCst) != 2 && t0.elapsed().as_millis() < 25 {
+            std::thread::yield_now();
+        }
+    }
+}
+#[derive(Clone, PartialEq, Eq, Debug)]
+struct HSt(u32);
+impl Hash for HSt {
+    fn hash<H: Hasher>(&self, h: &mut H) {
+        hash_hook();
+        self.0.hash(h)
+    }
+}
+#[derive(Clone, Copy, PartialEq, Eq, Debug)]
+struct HKey(u8);
+impl Hash for HKey {
+    fn hash<H: Hasher>(&self, h: &mut H) {
+        hash_hook();
+        self.0.hash(h)
+    }
+}
+#[derive(Clone, Copy)]
+struct HTD {
+    use_value: bool,
+}
+impl Dominance for HTD {
+    type State = DS;
+    type Key = HKey;
+    fn get_key(&self, s: Arc<DS>) -> Option<HKey> {
+        Some(HKey(s.0))
+    }
+    fn nb_dimensions(&self, _: &DS) -> usize {
+        2
+    }
+    fn get_coordinate(&self, s: &DS, i: usize) -> isize {
+        if i == 0 {
+            s.1 as isize
+        } else {
+            s.2 as isize
+        }
+    }
+    fn use_value(&self) -> bool {
+        self.use_value
+    }
+}
+struct HDummy;
+impl Problem for HDummy {
+    type State = HSt;
+    fn nb_variables(&self) -> usize {
+        2
+    }
+    fn initial_state(&self) -> HSt {
+        HSt(0)
+    }
+    fn initial_value(&self) -> isize {
+        0
+    }
+    fn transition(&self, s: &HSt, _: Decision) -> HSt {
+        s.clone()
+    }
+    fn transition_cost(&self, _: &HSt, _: &HSt, _: Decision) -> isize {
+        0
+    }
+    fn next_variable(&self, _: usize, _: &mut dyn Iterator<Item = &HSt>) -> Option<Variable> {
+        None
+    }
+    fn for_each_in_domain(&self, _: Variable, _: &HSt, _: &mut dyn DecisionCallback) {}
+}
+fn hashgate(_args: &[String], out: &mut dyn Write) {
+    let cache_ops: Vec<Value> = vec![
+        json!({"op":"cupd","depth":0,"st":"a","value":1,"explored":true}),
+        json!({"op":"cupd","depth":0,"st":"a","value":2,"explored":false}),
+        json!({"op":"cupd","depth":0,"st":"a","value":2,"explored":true}),
+        json!({"op":"cupd","depth":0,"st":"a","value":3,"explored":false}),
+        json!({"op":"cget","depth":0,"st":"a"}),
+        json!({"op":"cclear_layer","depth":0}),
+    ];
+    let dom_ops: Vec<Value> = vec![
+        json!({"op":"dquery","depth":0,"key":1,"c":[1,1],"value":1}),
+        json!({"op":"dquery","depth":0,"key":1,"c":[2,0],"value":1}),
+        json!({"op":"dquery","depth":0,"key":1,"c":[2,2],"value":0}),
+        json!({"op":"dquery","depth":0,"key":1,"c":[0,2],"value":2}),
+        json!({"op":"dquery","depth":0,"key":1,"c":[1,1],"value":2}),
+    ];
+    let mut run = 0;
+    for (kind, ops) in [("cache", &cache_ops), ("dom", &dom_ops)] {
+        for pre in 0..2 {
+            for a in ops.iter() {
+                for b in ops.iter() {
+                    for pause in 1..=6usize {
+                        let mut cache: SimpleCache<HSt> = SimpleCache::default();
+                        cache.initialize(&HDummy);
+                        let chk = SimpleDominanceChecker::new(HTD { use_value: true }, 2);
+                        let mut evs: Vec<(u64, Value)> = vec![];
+                        let exec = |t: usize, o: &Value, evs: &mut Vec<(u64, Value)>| {
+                            let mut inv = o.clone();
+                            inv["ev"] = json!("inv");
+                            inv["t"] = json!(t);
+                            let s0 = stamp();
+                            let depth = o["depth"].as_u64().unwrap() as usize;
+                            let ret = match o["op"].as_str().unwrap() {
+                                "cupd" => {
+                                    cache.update_threshold(Arc::new(HSt(unletter(o["st"].as_str().unwrap()))), depth, o["value"].as_i64().unwrap() as isize, o["explored"].as_bool().unwrap());
+                                    json!({})
+                                }
+                                "cget" => json!({"ret": thjson(cache.get_threshold(&HSt(unletter(o["st"].as_str().unwrap())), depth))}),
+                                "cclear_layer" => {
+                                    cache.clear_layer(depth);
+                                    json!({})
+                                }
+                                _ => {
+                                    let c = &o["c"];
+                                    let res = chk.is_dominated_or_insert(Arc::new((o["key"].as_u64().unwrap() as u8, c[0].as_i64().unwrap() as i8, c[1].as_i64().unwrap() as i8)), depth, o["value"].as_i64().unwrap() as isize);
+                                    let (d, th) = djson(&res);
+                                    json!({"dominated": d, "threshold": th})
+                                }
+                            };
+                            let s1 = stamp();
+                            let mut res = ret;
+                            res["ev"] = json!("res");
+                            res["t"] = json!(t);
+                            evs.push((s0, inv));
+                            evs.push((s1, res));
+                        };
+                        // an initial entry so that updates take the occupied path as well
+                        if pre == 1 {
+                            exec(0, &ops[0], &mut evs);
+                        }
+                        GATE.store(0, SeqCst);
+                        let a_done = std::sync::atomic::AtomicBool::new(false);
+                        std::thread::scope(|sc| {
+                            let exec = &exec;
+                            let a_done = &a_done;
+                            let ha = sc.spawn(move || {
+                                let mut mine = vec![];
+                                PAUSE_AT.with(|p| p.set(pause));
+                                HCOUNT.with(|c| c.set(0));
+                                exec(1, a, &mut mine);
+                                PAUSE_AT.with(|p| p.set(0));
+                                a_done.store(true, SeqCst);
+                                mine
+                            });
+                            let hb = sc.spawn(move || {
+                                let mut mine = vec![];
+                                while GATE.load(SeqCst) != 1 && !a_done.load(SeqCst) {
+                                    std::thread::yield_now();
+                                }
+                                exec(2, b, &mut mine);
+                                GATE.store(2, SeqCst);
+                                mine
+                            });
+                            evs.extend(ha.join().unwrap());
+                            evs.extend(hb.join().unwrap());
+                        });
+                        // quiescent read-back
+                        if kind == "cache" {
+                            exec(0, &json!({"op":"cget","depth":0,"st":"a"}), &mut evs);
+                        } else {
+                            for x in 0..3 {
+                                for y in 0..3 {
+                                    exec(0, &json!({"op":"dquery","depth":0,"key":1,"c":[x,y],"value":-1}), &mut evs);
+                                }
+                            }
+                        }
+                        evs.sort_by_key(|e| e.0);
+                        writeln!(out, "{}", json!({"ev":"reset","uv":true,"run":run,"threads":2,"hashgate":{"a":a,"b":b,"pause_at":pause,"prefilled":pre == 1}})).unwrap();
+                        for (_, e) in evs {
+                            writeln!(out, "{}", e).unwrap();
+                        }
+                        run += 1;
+                    }
+                }
+            }
+        }
+    }
+}
+
 fn main() {
     let args: Vec<String> = std::env::args().collect();
     let outp = arg(&args, "--out").expect("--out");
@@ -463,6 +661,7 @@ fn main() {
         "gap" => gap(&args, &mut out),
         "width" => width(&args, &mut out),
         "lin" => lin(&args, &mut out),
+        "hashgate" => hashgate(&args, &mut out),
         x => panic!("unknown engine command {x}"),
     }
     out.flush().unwrap();
